@@ -176,3 +176,22 @@ class Check:
         os.makedirs(edir, exist_ok=True)
         with open(os.path.join(edir, self.prop + ".json"), "w") as f:
             json.dump(ev, f, indent=1)
+
+
+class Alias:
+    """report another module's rule instances under this property's own rule id (shared clauses)"""
+
+    def __init__(self, ck, src, dst):
+        self.ck, self.src, self.dst = ck, src, dst
+
+    def __getattr__(self, name):
+        f = getattr(self.ck, name)
+        if name in ("ok", "bad", "check", "floor", "anchor_lost"):
+            def g(*a, **kw):
+                a = list(a)
+                idx = 1 if name == "check" else 0
+                if len(a) > idx and isinstance(a[idx], str) and a[idx].startswith(self.src):
+                    a[idx] = a[idx].replace(self.src, self.dst, 1)
+                return f(*a, **kw)
+            return g
+        return f
